@@ -636,7 +636,7 @@ pub fn explore(ctx: &mut Ctx, mk: fn() -> Box<dyn DynIter>) {
             }
         }
     }
-    if ctx.want_sample() {
+    if ctx.want_sample() && n >= 3 {
         ctx.sample(json!({"program": ctx.program.label, "enum": render_enum(&spec, &["strum::EnumIter"]),
             "bfs_unique_states": total_states, "transitions": c.transitions, "max_depth": max_depth,
             "example_history": show_hist(&[Act{it:0,op:Op::Next}, Act{it:0,op:Op::Clone}, Act{it:1,op:Op::NthBack(usize::MAX)}, Act{it:0, op:Op::Nth(1)}])}));
